@@ -7,4 +7,4 @@ export PYTHONHASHSEED=0 PYTHONPATH=/repo PYTHONDONTWRITEBYTECODE=1
 for t in harness/translate_*.py; do [ -e "$t" ] && /venv/bin/python "$t"; done
 cd coq
 coq_makefile -f _CoqProject -o Makefile
-timeout 3000 make -j16
+timeout 3000 make -k -j16 COQC="timeout 600 coqc"
